@@ -9,7 +9,8 @@ EXTENDS QCircuit, Json, IOUtils, SequencesExt
 
 CONSTANTS MaxN,        \* registers of 1 .. MaxN qubits for single-gate circuits
           PairN,       \* registers on which all two-gate circuits over PairGates1/2 are taken
-          TripleN      \* registers for three-gate circuits over the small gate set (0 = none)
+          TripleN,     \* registers for three-gate circuits over the small gate set
+          InterN       \* registers on which two two-qubit gates act on disjoint qubit pairs (same layer)
 
 VARIABLE row
 
@@ -28,15 +29,22 @@ Circuits ==
   \cup UNION {{[n |-> n, circ |-> <<g1, g2>>] : g1 \in SmallGates(n), g2 \in SmallGates(n)} : n \in PairN}
   \cup UNION {{[n |-> n, circ |-> <<g1, g2, g3>>] : g1 \in TwoQ(0, n - 1), g2 \in SmallGates(n), g3 \in TwoQ(n - 1, 0) \cup SmallOneQ(0)} : n \in TripleN}
 
+\* two two-qubit gates on disjoint pairs of qubits: the compiler puts them in ONE matrix
+TwoQSmall(q1, q2) == {G(n, 0, <<q1, q2>>) : n \in {"cx", "swap", "dcnot"}}
+Disjoint(n) == {pp \in Pairs(n) \X Pairs(n) : {pp[1][1], pp[1][2]} \cap {pp[2][1], pp[2][2]} = {}}
+Layered == UNION {UNION {{[n |-> n, circ |-> <<g1, g2>>] : g1 \in TwoQSmall(pp[1][1], pp[1][2]), g2 \in TwoQSmall(pp[2][1], pp[2][2])} :
+                           pp \in Disjoint(n)} : n \in InterN}
+
 RowOf(c) == [n |-> c.n, circ |-> c.circ,
              cols |-> [k \in 1 .. Pow2(c.n) |-> LET v == Column(k - 1, c.n, c.circ) IN [b \in 1 .. Pow2(c.n) |-> v[b - 1]]]]
 
-Init == row \in {RowOf(c) : c \in Circuits}
+AllCircuits == Circuits \cup Layered
+Init == row \in {RowOf(c) : c \in AllCircuits}
 Next == UNCHANGED row
 Spec == Init /\ [][Next]_row
 
 UnitaryColumns == \A k \in 1 .. Len(row.cols) :
                     IsOne(Norm2([b \in 0 .. Pow2(row.n) - 1 |-> row.cols[k][b + 1]], row.n))
 
-ASSUME ndJsonSerialize(IOEnv.ROWS, SetToSeq({RowOf(c) : c \in Circuits}))
+ASSUME ndJsonSerialize(IOEnv.ROWS, SetToSeq({RowOf(c) : c \in AllCircuits}))
 =============================================================================
